@@ -49,7 +49,7 @@ def run(c):
         raise Machinery("expected %d emitted programs, got %d" % (nprog, len(cases)))
     # sensitivity: each mutation of the loop must violate the invariant that states the clause it breaks
     small = dict(consts, MaxLen=3)
-    for mut, inv in list(MUTATIONS.items())[:2 if c.quick else None]:
+    for mut, inv in list(MUTATIONS.items())[:1 if c.quick else None]:
         c.mc("AuthStrategy", cfg_text(constants=dict(small, Mutation=mut), invariants=invs, properties=["CallsLegal"]),
              expect=inv, name="mutation " + mut, workers=4)
 
